@@ -50,6 +50,7 @@ from modelx.core.errors import DeletedObjectError
 
 
 def close_all():
+    mx.set_recalc(False)
     for m in list(mx.get_models().values()):
         try:
             m.close()
@@ -289,6 +290,7 @@ def run_case(case):
     defs = json.loads(json.dumps(case["defs"]))
     globs = {}
     m = build(defs)
+    mx.set_recalc(bool(case.get("recalc")))
     fresh = [None]          # fresh model of the current definitions, rebuilt lazily after an edit
 
     def fresh_model():
